@@ -232,11 +232,11 @@ fn c16_configs(tier: Tier) -> Vec<TcpCfg> {
         c.drops = 0;
     });
     // the accepting side sends first, into a client whose receive cap is below the flight
-    add("srvfirst-mss1-snd4-rcv2-s4", &|c| {
-        c.send_cap = 4;
-        c.recv_cap = 2;
+    add(if tier == Tier::Thorough { "srvfirst-mss1-snd4-rcv2-s4" } else { "srvfirst-mss1-snd2-rcv1-s2" }, &|c| {
+        c.send_cap = tier.pick(2, 4);
+        c.recv_cap = tier.pick(1, 2);
         c.c_chunks = vec![1];
-        c.s_bytes = 4;
+        c.s_bytes = tier.pick(2, 4);
         c.mode = Mode::Concurrent;
         c.reader_buf = 1;
         c.drops = 0;
